@@ -305,3 +305,13 @@ def c12_zero_divisor_case_dropped(v):
         if not (x.get('input_holds') is True and not any(x.get('cases_hold') or [True]) and zero_div):
             return False
     return True
+
+
+@predicate
+def c09_nested_instance_counts_rejected_candidates(v):
+    """members copied from a configured nested INSTANCE count the calls of the ensemble-decorated cost, i.e. also the candidates the ensemble's ranges answer
+    with inf without calling the user's cost: the total exceeds the number of real cost calls (never falls short of it)"""
+    r = v['record']
+    return (r.get('clause', '').startswith('ens:total evaluation count equals the number of real cost calls') and r.get('nested_given_as_configured_instance') is True
+            and r.get('ranges_in_force') is True and isinstance(r.get('total'), int) and isinstance(r.get('real'), int) and r['total'] > r['real'])
+
